@@ -1,0 +1,314 @@
+//go:build verif
+
+package executor
+
+// Verification hook (build tag `verif` only): a small script interpreter over the internal
+// future package. The package is `internal`, so only a file inside graphql/executor can reach it.
+// The /verif C02 harness builds future terms from a description, fulfils scripted promises, polls
+// the term through a pointer (exactly like wait does) and compares the results and the side-effect
+// log with the Lean model of future.go.
+
+import (
+	"fmt"
+	"strconv"
+	"strings"
+
+	"github.com/ccbrown/api-fu/graphql/executor/internal/future"
+)
+
+// VerifFutureTerm describes a future expression.
+//
+//	ready      Ok/Value | Err                      future.Ok / future.Err
+//	promise    ID                                  future.New(select on a scripted channel)
+//	map        Fn(catch|nonnull|log) Tag, Child    future.Map
+//	mapOk      Tag, Child                          future.MapOk (callback logs "set:<Tag>:<v>" and returns nil)
+//	mapOkToAny Child                               future.MapOkToAny
+//	mapOkValue Value, Child                        future.MapOkValue
+//	then       Tag, Child, OnOk, OnErr             future.Then (continuation logs "then:<Tag>:<r>" and builds OnOk/OnErr)
+//	join       Children                            future.Join  (yields a list)
+//	after      Children                            future.After (yields unit)
+type VerifFutureTerm struct {
+	Op       string             `json:"op"`
+	Ok       bool               `json:"ok,omitempty"`
+	Null     bool               `json:"null,omitempty"`
+	Value    int                `json:"value,omitempty"`
+	Err      string             `json:"err,omitempty"`
+	ID       int                `json:"id,omitempty"`
+	Fn       string             `json:"fn,omitempty"`
+	Tag      string             `json:"tag,omitempty"`
+	Child    *VerifFutureTerm   `json:"child,omitempty"`
+	OnOk     *VerifFutureTerm   `json:"on_ok,omitempty"`
+	OnErr    *VerifFutureTerm   `json:"on_err,omitempty"`
+	Children []*VerifFutureTerm `json:"children,omitempty"`
+}
+
+type verifError string
+
+func (e verifError) Error() string { return string(e) }
+
+// VerifFutureMachine holds one built term, its scripted promise channels and the side-effect log.
+type VerifFutureMachine struct {
+	Log   []string
+	chans map[int]chan future.Result[any]
+	root  verifFut
+}
+
+// exactly one of the three is set
+type verifFut struct {
+	a *future.Future[any]
+	l *future.Future[[]any]
+	u *future.Future[struct{}]
+}
+
+func verifShowValue(v any) string {
+	switch v := v.(type) {
+	case nil:
+		return "null"
+	case int:
+		return strconv.Itoa(v)
+	case struct{}:
+		return "null"
+	case []any:
+		parts := make([]string, len(v))
+		for i, x := range v {
+			parts[i] = verifShowValue(x)
+		}
+		return "[" + strings.Join(parts, ",") + "]"
+	}
+	return fmt.Sprintf("?%T", v)
+}
+
+func verifShowResult(v any, err error) string {
+	if err != nil {
+		return "err:" + err.Error()
+	}
+	return "ok:" + verifShowValue(v)
+}
+
+func (m *VerifFutureMachine) channel(id int) chan future.Result[any] {
+	ch, ok := m.chans[id]
+	if !ok {
+		ch = make(chan future.Result[any], 1)
+		m.chans[id] = ch
+	}
+	return ch
+}
+
+// Fulfil delivers a result to promise id (at most once per id).
+func (m *VerifFutureMachine) Fulfil(id int, null bool, value int, err string) {
+	var r future.Result[any]
+	if err != "" {
+		r.Error = verifError(err)
+	} else if !null {
+		r.Value = value
+	}
+	m.channel(id) <- r
+}
+
+func (m *VerifFutureMachine) asAny(t *VerifFutureTerm) (future.Future[any], error) {
+	f, err := m.build(t)
+	if err != nil {
+		return future.Future[any]{}, err
+	}
+	if f.a == nil {
+		return future.Future[any]{}, fmt.Errorf("%s: child is not a Future[any]", t.Op)
+	}
+	return *f.a, nil
+}
+
+func (m *VerifFutureMachine) build(t *VerifFutureTerm) (verifFut, error) {
+	if t == nil {
+		return verifFut{}, fmt.Errorf("missing term")
+	}
+	switch t.Op {
+	case "ready":
+		var f future.Future[any]
+		if t.Err != "" {
+			f = future.Err[any](verifError(t.Err))
+		} else if t.Null {
+			f = future.Ok[any](nil)
+		} else {
+			f = future.Ok[any](t.Value)
+		}
+		return verifFut{a: &f}, nil
+	case "promise":
+		ch := m.channel(t.ID)
+		f := future.New(func() (future.Result[any], bool) {
+			select {
+			case r := <-ch:
+				return r, true
+			default:
+				return future.Result[any]{}, false
+			}
+		})
+		return verifFut{a: &f}, nil
+	case "map":
+		c, err := m.asAny(t.Child)
+		if err != nil {
+			return verifFut{}, err
+		}
+		tag := t.Tag
+		var fn func(future.Result[any]) future.Result[any]
+		switch t.Fn {
+		case "catch":
+			fn = func(r future.Result[any]) future.Result[any] {
+				if r.IsErr() {
+					m.Log = append(m.Log, "catch:"+tag+":"+r.Error.Error())
+					r.Error = nil
+				}
+				return r
+			}
+		case "nonnull":
+			fn = func(r future.Result[any]) future.Result[any] {
+				if r.IsOk() && r.Value == nil {
+					r.Error = verifError("nonnull:" + tag)
+				}
+				return r
+			}
+		case "log":
+			fn = func(r future.Result[any]) future.Result[any] {
+				m.Log = append(m.Log, "log:"+tag+":"+verifShowResult(r.Value, r.Error))
+				return r
+			}
+		default:
+			return verifFut{}, fmt.Errorf("unknown map fn %q", t.Fn)
+		}
+		f := future.Map(c, fn)
+		return verifFut{a: &f}, nil
+	case "mapOk":
+		c, err := m.asAny(t.Child)
+		if err != nil {
+			return verifFut{}, err
+		}
+		tag := t.Tag
+		f := future.MapOk(c, func(v any) any {
+			m.Log = append(m.Log, "set:"+tag+":"+verifShowValue(v))
+			return nil
+		})
+		return verifFut{a: &f}, nil
+	case "mapOkToAny":
+		c, err := m.build(t.Child)
+		if err != nil {
+			return verifFut{}, err
+		}
+		var f future.Future[any]
+		switch {
+		case c.a != nil:
+			f = future.MapOkToAny(*c.a)
+		case c.l != nil:
+			f = future.MapOkToAny(*c.l)
+		default:
+			f = future.MapOkToAny(*c.u)
+		}
+		return verifFut{a: &f}, nil
+	case "mapOkValue":
+		c, err := m.build(t.Child)
+		if err != nil {
+			return verifFut{}, err
+		}
+		var v any
+		if !t.Null {
+			v = t.Value
+		}
+		var f future.Future[any]
+		switch {
+		case c.a != nil:
+			f = future.MapOkValue(*c.a, v)
+		case c.l != nil:
+			f = future.MapOkValue(*c.l, v)
+		default:
+			f = future.MapOkValue(*c.u, v)
+		}
+		return verifFut{a: &f}, nil
+	case "then":
+		c, err := m.asAny(t.Child)
+		if err != nil {
+			return verifFut{}, err
+		}
+		tag := t.Tag
+		var buildErr error
+		f := future.Then(c, func(r future.Result[any]) future.Future[any] {
+			m.Log = append(m.Log, "then:"+tag+":"+verifShowResult(r.Value, r.Error))
+			next := t.OnOk
+			if r.IsErr() {
+				next = t.OnErr
+			}
+			nf, err := m.asAny(next)
+			if err != nil {
+				buildErr = err
+				return future.Err[any](verifError("bad continuation: " + err.Error()))
+			}
+			return nf
+		})
+		if buildErr != nil {
+			return verifFut{}, buildErr
+		}
+		return verifFut{a: &f}, nil
+	case "join", "after":
+		cs := make([]future.Future[any], len(t.Children))
+		for i, ct := range t.Children {
+			c, err := m.asAny(ct)
+			if err != nil {
+				return verifFut{}, err
+			}
+			cs[i] = c
+		}
+		if t.Op == "join" {
+			f := future.Join(cs...)
+			return verifFut{l: &f}, nil
+		}
+		f := future.After(cs...)
+		return verifFut{u: &f}, nil
+	}
+	return verifFut{}, fmt.Errorf("unknown op %q", t.Op)
+}
+
+// VerifNewFutureMachine builds the term. Callbacks of combinators over ready children run during
+// construction, exactly as in the library; they are visible in Log.
+func VerifNewFutureMachine(t *VerifFutureTerm) (*VerifFutureMachine, error) {
+	m := &VerifFutureMachine{chans: map[int]chan future.Result[any]{}}
+	root, err := m.build(t)
+	if err != nil {
+		return nil, err
+	}
+	m.root = root
+	return m, nil
+}
+
+// State reports whether the root future is ready and, if so, its result ("ok:<v>" | "err:<msg>").
+func (m *VerifFutureMachine) State() (ready bool, result string) {
+	switch {
+	case m.root.a != nil:
+		if m.root.a.IsReady() {
+			r := m.root.a.Result()
+			return true, verifShowResult(r.Value, r.Error)
+		}
+	case m.root.l != nil:
+		if m.root.l.IsReady() {
+			r := m.root.l.Result()
+			if r.Error == nil {
+				return true, verifShowResult([]any(r.Value), nil)
+			}
+			return true, verifShowResult(nil, r.Error)
+		}
+	case m.root.u != nil:
+		if m.root.u.IsReady() {
+			r := m.root.u.Result()
+			return true, verifShowResult(r.Value, r.Error)
+		}
+	}
+	return false, ""
+}
+
+// Poll polls the root future through a pointer, as wait does.
+func (m *VerifFutureMachine) Poll() (ready bool, result string) {
+	switch {
+	case m.root.a != nil:
+		m.root.a.Poll()
+	case m.root.l != nil:
+		m.root.l.Poll()
+	case m.root.u != nil:
+		m.root.u.Poll()
+	}
+	return m.State()
+}
